@@ -3,9 +3,10 @@
 
    All theorems quantify over every option list: any option types, any data lengths (bytes are N, so
    0..253 is included), duplicates, any order; and over every configuration and previous peer state.
-   Variant [repaired] is what /repo HEAD (ce9ad2f) implements for pkg/ppp, internal/pppoe and internal/l2tp,
-   except the one finding still open (installInMemoryState, flag f_restore / [def_restore]).  [defective] and
-   [lns_found] are the behaviours before the fixes and only occur in historical _refuted witnesses.  The IPCP,
+   Variant [repaired] is what /repo HEAD (27a2839) implements for pkg/ppp, internal/pppoe and internal/l2tp,
+   except the one finding still open: installInMemoryState restores IPCP for any non-nil checkpointed address
+   (flag f_rguard / [def_rguard]).  [defective], [lns_found], [def_restore] are the behaviours before the fixes
+   54fb851 / 95b0af2 / bc32486 / ce9ad2f / 8205ad2 and only occur in historical _refuted witnesses.  The IPCP,
    IPv6CP, magic-number, wire-format and reply theorems do not depend on the variant at all. *)
 From OV Require Import Common.Base C06.Model C06.Proofs.
 
@@ -253,14 +254,15 @@ Print Assumptions C06_ipv6cp_wire_bad.
 (* Event alphabet of a session history (sev): the subscriber's Configure-Request (any identifier, any bytes),
    its Configure-Ack / Nak / Reject for our own request carrying our last identifier (verbatim or with
    arbitrary bytes) or a stale identifier (dropped), its Terminate-Request, the restart time-out in
-   Stopping, and a re-authentication (new AAA answer, registry answers as oracle, startNCP again).
+   Stopping, an LCP renegotiation (EvDown: onLCPDown, PPPoE sends Down to the NCPs) and a re-authentication
+   (EvDown, then new AAA answer, registry answers as oracle, startNCP again — the production path).
    Not in the alphabet: Code-Reject, Terminate-Ack, the other time-outs, Down/Close (automaton: C05).
 
    Repaired behaviour, both owners (PPPoE, LNS), every AAA answer (none, usable, 0.0.0.0, IPv6 literal, ...),
    every outcome of pool allocation / address reservation (oracle) at start and at every re-authentication,
    every history.  Either IPCP was never started — the session then has no IPv4 address and IPCP is not
    open — or: the assigned address is usable; the session address is nil or the assigned address (nil only
-   after a reservation conflict on re-authentication, see the next theorem); and the remembered negotiated
+   after a reservation conflict on re-authentication, and then IPCP is not open: C06_open_session_has_assigned_address); and the remembered negotiated
    peer address is nil or the assigned one, never a stale one. *)
 Theorem C06_adopted_is_assigned :
   forall ow aaa orc es,
@@ -283,15 +285,54 @@ Theorem C06_adopted_is_assigned_no_conflict :
 Proof. exact adopted_is_assigned_no_conflict. Qed.
 Print Assumptions C06_adopted_is_assigned_no_conflict.
 
-(* Observation (HEAD, PPPoE): a re-authentication whose new address is held by another session clears the
-   session address but leaves IPCP open with the old assignment — the session is then "open" without an
-   IPv4 address until IPCP is renegotiated.  No foreign address is acknowledged or adopted (theorem above). *)
-Example C06_reauth_conflict_observation :
+(* Re-authentication as production runs it (onLCPDown sends Down to the NCPs first): when the new address is
+   held by another session the session address is cleared, IPCP stays in Starting with the old assignment,
+   not open, and silent until the next startNCP. *)
+Example C06_reauth_conflict_example :
   let s := sess_run repaired (sess_start repaired PPPoE (Some (v4prefix ++ [10;0;0;5])%N) (mkorc None true))
-             [EvReq 1 [3;6;10;0;0;5]%N; EvAck; EvReauth (Some (v4prefix ++ [10;0;0;9])%N) (mkorc None false)] in
-  s_open s = true /\ s_addr s = None /\ ic_assigned (s_cfg s) = Some [10;0;0;5]%N.
+             [EvReq 1 [3;6;10;0;0;5]%N; EvAck; EvReauth (Some (v4prefix ++ [10;0;0;9])%N) (mkorc None false);
+              EvReq 2 [3;6;6;6;6;6]%N] in
+  s_open s = false /\ s_fsm s = 1%N /\ s_addr s = None /\ ic_assigned (s_cfg s) = Some [10;0;0;5]%N.
 Proof. vm_compute. repeat split. Qed.
-Print Assumptions C06_reauth_conflict_observation.
+Print Assumptions C06_reauth_conflict_example.
+
+(* The property on the TRACE.  For every start (fresh session of either owner with any AAA answer and
+   registry outcome, or a session restored from a checkpoint with any address), every history and every next
+   event: every Configure-Ack the session emits consists of implemented 4-byte options only and every
+   IP-Address option in it carries the assignment in force, which is usable. *)
+Theorem C06_session_acks_only_assigned :
+  forall s0 es e id os,
+  (exists ow aaa orc, s0 = sess_start repaired ow aaa orc) \/
+  (exists addr d1 d2, s0 = sess_restore repaired addr d1 d2) ->
+  let s := sess_run repaired s0 es in
+  In (Sca id os) (snd (sess_step repaired s e)) ->
+  exists v, ic_assigned (s_cfg s) = Some v /\ usable (ic_assigned (s_cfg s)) = true /\
+            (forall o, In o os -> o_type o = 3%N -> o_data o = v) /\
+            (forall o, In o os -> length (o_data o) = 4%nat /\
+                                  (o_type o = 3%N \/ o_type o = 129%N \/ o_type o = 131%N)).
+Proof.
+  intros s0 es e id os H0. apply session_acks_only_assigned.
+  destruct H0 as [(ow & aaa & orc & ->)|(addr & d1 & d2 & ->)]; [apply sess_start_ok|apply sess_restore_ok].
+Qed.
+Print Assumptions C06_session_acks_only_assigned.
+
+(* ... and whenever IPCP is open (ipcpOpen), in every reachable state: the FSM is Opened, the assignment is
+   usable and the session address IS the assignment. *)
+Theorem C06_open_session_has_assigned_address :
+  forall s0 es,
+  (exists ow aaa orc, s0 = sess_start repaired ow aaa orc) \/
+  (exists addr d1 d2, s0 = sess_restore repaired addr d1 d2) ->
+  let s := sess_run repaired s0 es in
+  s_open s = true ->
+  usable (ic_assigned (s_cfg s)) = true /\ to4o (s_addr s) = ic_assigned (s_cfg s) /\ s_fsm s = 9%N.
+Proof.
+  intros s0 es H0 s. apply open_has_assigned.
+  - apply sess_run_ok. destruct H0 as [(ow & aaa & orc & ->)|(addr & d1 & d2 & ->)];
+      [apply sess_start_ok|apply sess_restore_ok].
+  - destruct H0 as [(ow & aaa & orc & ->)|(addr & d1 & d2 & ->)]; apply sess_run_fsm_ok;
+      first [apply sess_start_ok|apply sess_restore_ok|apply sess_start_fsm_ok|apply sess_restore_fsm_ok].
+Qed.
+Print Assumptions C06_open_session_has_assigned_address.
 
 (* while IPCP has not been started the session is silent and stays closed whatever the subscriber sends
    (any variant, either owner) *)
@@ -332,7 +373,7 @@ Print Assumptions C06_startncp_assigned.
    option is acknowledged, IPCP comes up and onIPCPUp overwrites the session address with the nil peer address. *)
 Theorem C06_adopted_is_assigned_refuted :
   exists ow aaa orc es,
-  let fl := mkflags false true false false false false in
+  let fl := mkflags false true false false false false false in
   let s := sess_run fl (sess_start fl ow aaa orc) es in
   s_open s = true /\ s_addr s = None /\ usable (ic_assigned (s_cfg s)) = true.
 Proof.
@@ -346,7 +387,7 @@ Print Assumptions C06_adopted_is_assigned_refuted.
    the session adopts the stale A. *)
 Theorem C06_adopted_stale_refuted :
   exists aaa es,
-  let fl := mkflags false true false true false false in
+  let fl := mkflags false true false true false false false in
   let s := sess_run fl (sess_start fl PPPoE aaa (mkorc None true)) es in
   s_open s = true /\ s_addr s = Some [10;0;0;5]%N /\ ic_assigned (s_cfg s) = Some [10;0;0;9]%N.
 Proof.
@@ -357,13 +398,14 @@ Proof.
 Qed.
 Print Assumptions C06_adopted_stale_refuted.
 
-(* Historical, fixed in bc32486 (2): an unusable AAA address (0.0.0.0, IPv6 literal) was kept by extractIPFromAttributes;
-   on a re-authentication it wipes the address of a session whose IPCP is open with A assigned. *)
+(* Historical, fixed in bc32486 (2): an unusable AAA address (0.0.0.0, IPv6 literal) was kept by
+   extractIPFromAttributes; on a re-authentication it replaces the valid address A of the session, startNCP
+   then finds nothing usable and IPv4 stays down although A is still assigned in the IPCP object. *)
 Theorem C06_aaa_unusable_refuted :
   exists aaa es,
-  let fl := mkflags false false true false false false in
+  let fl := mkflags false false true false false false false in
   let s := sess_run fl (sess_start fl PPPoE aaa (mkorc None true)) es in
-  s_open s = true /\ s_addr s = None /\ ic_assigned (s_cfg s) = Some [10;0;0;5]%N.
+  s_open s = false /\ s_addr s = None /\ ic_assigned (s_cfg s) = Some [10;0;0;5]%N.
 Proof.
   exists (Some (v4prefix ++ [10;0;0;5])%N),
          [EvReq 1 [3;6;10;0;0;5]%N; EvAck; EvReauth (Some (v4prefix ++ [0;0;0;0])%N) (mkorc None true)].
@@ -383,12 +425,12 @@ Proof.
 Qed.
 Print Assumptions C06_lns_unassigned_refuted.
 
-(* A session restored from a checkpoint (installInMemoryState, repaired): the checkpointed address is the
-   assignment, and for every history after the restore (renegotiation by the subscriber, re-authentication,
-   ...) the conclusion of C06_adopted_is_assigned holds. *)
+(* A session restored from a checkpoint (installInMemoryState, repaired guard): for EVERY checkpointed
+   address — usable or not — and every history after the restore (renegotiation by the subscriber,
+   re-authentication, ...) the conclusion of C06_adopted_is_assigned holds: an unusable address does not
+   restore IPCP at all; a usable one is the assignment and IPCP is Opened. *)
 Theorem C06_restored_adopts_only_assigned :
   forall addr d1 d2 es,
-  usable (Some addr) = true ->
   let s := sess_run repaired (sess_restore repaired addr d1 d2) es in
   (s_fsm s = 0%N /\ s_addr s = None /\ s_open s = false) \/
   (usable (ic_assigned (s_cfg s)) = true /\
@@ -398,18 +440,30 @@ Proof. exact restored_adopts_only_assigned. Qed.
 Print Assumptions C06_restored_adopts_only_assigned.
 
 Theorem C06_restored_assigned :
-  forall addr d1 d2, ic_assigned (s_cfg (sess_restore repaired addr d1 d2)) = to4 addr.
+  forall addr d1 d2, usable (Some addr) = true ->
+  ic_assigned (s_cfg (sess_restore repaired addr d1 d2)) = to4 addr /\
+  s_fsm (sess_restore repaired addr d1 d2) = 9%N.
 Proof. exact restored_assigned. Qed.
 Print Assumptions C06_restored_assigned.
 
-(* OPEN finding (known: restored-session-ipcp-has-nothing-assigned) at /repo ce9ad2f: the restored IPCP object has nothing assigned; the subscriber
-   renegotiates IPCP proposing 6.6.6.6, gets a Configure-Ack, and the session adopts 6.6.6.6. *)
+(* Historical, fixed in 8205ad2: the restored IPCP object had nothing assigned; the subscriber renegotiates
+   IPCP proposing 6.6.6.6, gets a Configure-Ack, and the session adopts 6.6.6.6. *)
 Theorem C06_restored_adopts_only_assigned_refuted :
   exists addr es,
   let s := sess_run def_restore (sess_restore def_restore addr None None) es in
   usable (Some addr) = true /\ s_open s = true /\ s_addr s = Some [6;6;6;6]%N.
 Proof. exists [10;0;0;5]%N, [EvReq 1 [3;6;6;6;6;6]%N; EvAck]. vm_compute. repeat split. Qed.
 Print Assumptions C06_restored_adopts_only_assigned_refuted.
+
+(* OPEN finding (known: restore-unusable-address-restores-ipcp) at /repo 27a2839: the guard in
+   installInMemoryState is "IPv4Address != nil"; a checkpoint holding 0.0.0.0 (or a 16-byte non-IPv4 value)
+   restores IPCP to Opened with nothing usable assigned, and the renegotiating subscriber gets 6.6.6.6. *)
+Theorem C06_restore_guard_refuted :
+  exists addr es,
+  let s := sess_run def_rguard (sess_restore def_rguard addr None None) es in
+  usable (Some addr) = false /\ s_open s = true /\ s_addr s = Some [6;6;6;6]%N.
+Proof. exists [0;0;0;0]%N, [EvReq 1 [3;6;6;6;6;6]%N; EvAck]. vm_compute. repeat split. Qed.
+Print Assumptions C06_restore_guard_refuted.
 
 (* ---- LCP ------------------------------------------------------------------------------------ *)
 
@@ -583,19 +637,18 @@ Print Assumptions C06_history_nonvacuous.
 
 (* ---- IPv6CP in a session: "its own identifier" is the one it has put on the wire ------------- *)
 
-(* startNCP installs the MAC-derived identifier and only then opens IPv6CP.  For every random default
-   identifier r, every installed identifier m and every history of subscriber Configure-Requests (arbitrary
-   bytes, or echoing exactly what our last Configure-Request carried), verbatim Acks, Naks and Rejects with
-   arbitrary contents: the identifier announced in our outstanding Configure-Request is the one
-   ProcessConfReq compares with, and no Configure-Ack ever carries an identifier that our last
-   Configure-Request announced.  (A second startNCP on the same session re-installs m without re-announcing;
-   histories containing it are compared with the real code but are outside this statement.) *)
+(* startNCP installs the MAC-derived identifier and only then opens IPv6CP; onLCPDown sends Down to
+   IPv6CP, so a re-authentication (V6Start again) re-announces.  For every random default identifier r, every
+   installed identifier m and EVERY history of subscriber Configure-Requests (arbitrary bytes, or echoing
+   exactly what our last Configure-Request carried), verbatim Acks, Naks and Rejects with arbitrary contents,
+   LCP renegotiations and re-authentications: whenever a Configure-Ack is emitted, the identifier announced
+   in our outstanding Configure-Request is the one ProcessConfReq compared with, and the Configure-Ack carries
+   no identifier that our last Configure-Request announced. *)
 Theorem C06_ipv6cp_wire_identity :
   forall r m es s,
-  forallb (fun e => negb (is_v6start e)) es = true ->
   s = v6sess_run (fst (v6sess_step (v6sess0 r) (V6Start m))) es ->
-  vs_last s = v6_build (vs_obj s) /\
-  forall e acts id' os, is_v6start e = false -> snd (v6sess_step s e) = acts -> In (Sca id' os) acts ->
+  forall e acts id' os, snd (v6sess_step s e) = acts -> In (Sca id' os) acts ->
+    vs_last s = v6_build (vs_obj s) /\
     forall o x, In o os -> In x (vs_last s) -> o_data o <> o_data x.
 Proof. exact v6_wire_identity. Qed.
 Print Assumptions C06_ipv6cp_wire_identity.
